@@ -100,14 +100,16 @@ Definition layer := (string * list (string * string))%type.
 
 (* _get_mangle(prefix, aliases) without base_mangle.  s[0] of an empty name would raise;
    names are never empty (RULE / TERMINAL tokens) *)
+Definition plain (p s : string) : string :=
+  match s with
+  | String c r => if Ascii.eqb c "_" then String "_" (p ++ "__" ++ r) else p ++ "__" ++ s
+  | EmptyString => p ++ "__" ++ s
+  end.
+
 Definition mangle1 (l : layer) (s : string) : string :=
   match assoc s (snd l) with
   | Some a => a
-  | None =>
-      match s with
-      | String "_" r => "_" ++ fst l ++ "__" ++ r
-      | _ => fst l ++ "__" ++ s
-      end
+  | None => plain (fst l) s
   end.
 
 (* mangle with base_mangle chain: innermost layer first; [] is `mangle is None` *)
